@@ -1,3 +1,70 @@
-From Coercion.Store Require Import Tree.
-Theorem c14_placeholder : True. Proof. exact I. Qed.
-Print Assumptions c14_placeholder.
+(* C14 - Create is all-or-nothing and unique; Delete removes exactly one plan (sqlite model).
+
+   [create] = creator.Create + commitPlan: nil-id check, Exists, then every nested commit* inside one
+   transaction ([txn]: SQLite rolls back on error - trusted, stated in Rows.v). What carries the weight
+   is error propagation: commitPlan_body succeeds only if every nested INSERT and every encoding
+   succeeded (SqliteProofs.commitPlan_body_inv), so a failure anywhere reaches [txn]. *)
+From Coercion.Base Require Import Plan.
+From Coercion.Store Require Import Tree Rows Spec SqliteModel SqliteRep SqliteRefine SqliteTheorems.
+
+(* On any database with distinct primary keys, Create either fails and leaves the database as it was,
+   or succeeds, and then: the plan is read back whole; the database is the old one plus rows that all
+   carry the new plan's id (every other plan's rows are untouched); everything was encodable and the
+   id was new and not nil. *)
+Theorem c14_create_atomic :
+  forall (enc_req : blob -> option code) (dec_req : tok -> code -> option blob)
+         (enc_att : attempt -> option code) (dec_att : tok -> code -> option attempt)
+         (req_ok : tok -> blob -> bool) (att_ok : tok -> attempt -> bool),
+    (forall t b c, req_ok t b = true -> enc_req b = Some c -> dec_req t c = Some b) ->
+    (forall t a c, att_ok t a = true -> enc_att a = Some c -> dec_att t c = Some a) ->
+    forall (p : spln) (d d' : db) (ok : bool),
+      NoDup (map key d) -> SqliteModel.create enc_req enc_att p d = (d', ok) ->
+      (ok = false -> d' = d)
+      /\ (ok = true ->
+          (pln_dom req_ok att_ok p -> SqliteModel.read dec_req dec_att (sp_id p) d' = Some p)
+          /\ (exists rs, d' = d ++ rs /\ forall r, In r rs -> row_plan r = sp_id p)
+          /\ pln_encodes enc_req enc_att p = true /\ exists_plan (sp_id p) d = false /\ uid_nil (sp_id p) = false).
+Proof. exact c14_create_atomic_lemma. Qed.
+Print Assumptions c14_create_atomic.
+
+(* a request or an attempt that cannot be encoded, at ANY position of the tree, makes Create fail
+   with the database unchanged *)
+Theorem c14_create_unencodable :
+  forall (enc_req : blob -> option code) (enc_att : attempt -> option code) (p : spln) (d : db) (a : sact),
+    In a (pln_actions p) ->
+    (enc_req (sa_req a) = None \/ exists x, In x (sa_atts a) /\ enc_att x = None) ->
+    SqliteModel.create enc_req enc_att p d = (d, false).
+Proof. exact c14_create_unencodable_lemma. Qed.
+Print Assumptions c14_create_unencodable.
+
+(* creating an id that can be read fails without altering anything *)
+Theorem c14_create_unique :
+  forall (enc_req : blob -> option code) (dec_req : tok -> code -> option blob)
+         (enc_att : attempt -> option code) (dec_att : tok -> code -> option attempt) (p : spln) (d : db) (q : spln),
+    SqliteModel.read dec_req dec_att (sp_id p) d = Some q -> SqliteModel.create enc_req enc_att p d = (d, false).
+Proof. exact c14_create_unique_lemma. Qed.
+Print Assumptions c14_create_unique.
+
+(* On every database reachable by operations of the domain: Delete either fails (the id is not stored)
+   and changes nothing, or succeeds, and then no row of any table carries that plan id, the rows of
+   every other plan id are the same as before, the id reads as an error and every other id reads as
+   before. *)
+Theorem c14_delete_exact :
+  forall (enc_req : blob -> option code) (dec_req : tok -> code -> option blob)
+         (enc_att : attempt -> option code) (dec_att : tok -> code -> option attempt)
+         (req_ok : tok -> blob -> bool) (att_ok : tok -> attempt -> bool),
+    (forall t b c, req_ok t b = true -> enc_req b = Some c -> dec_req t c = Some b) ->
+    (forall t a c, att_ok t a = true -> enc_att a = Some c -> dec_att t c = Some a) ->
+    forall (ops : list op) (id : uid) (d' : db) (ok : bool),
+      ops_ok enc_req enc_att req_ok att_ok [] ops ->
+      SqliteModel.delete dec_req dec_att id (SqliteModel.run enc_req dec_req enc_att dec_att ops []) = (d', ok) ->
+      (ok = false -> d' = SqliteModel.run enc_req dec_req enc_att dec_att ops []
+                     /\ SqliteModel.read dec_req dec_att id (SqliteModel.run enc_req dec_req enc_att dec_att ops []) = None)
+      /\ (ok = true ->
+          (forall r, In r d' -> row_plan r <> id)
+          /\ (forall pid, pid <> id -> plan_rows pid d' = plan_rows pid (SqliteModel.run enc_req dec_req enc_att dec_att ops []))
+          /\ SqliteModel.read dec_req dec_att id d' = None
+          /\ (forall id', id' <> id -> SqliteModel.read dec_req dec_att id' d'
+                                       = SqliteModel.read dec_req dec_att id' (SqliteModel.run enc_req dec_req enc_att dec_att ops []))).
+Proof. exact c14_delete_exact_lemma. Qed.
+Print Assumptions c14_delete_exact.
